@@ -152,7 +152,7 @@ func (cs *clientState) capture() chan unblockReason {
 // Releases the client state capture after successful receipt of the unblock
 // signal. After releasing the capture, the non-blocking command processing
 // continues until the command completes.
-func (cs *clientState) releaseCapture() {
+func (cs *clientState) releaseCapture() (discarded *unblockReason) {
 
 	// A blocked command can become unblocked in these ways:
 	//
@@ -176,8 +176,9 @@ func (cs *clientState) releaseCapture() {
 	func() {
 		for {
 			select {
-			case <-cs.unblockCh:
-				// ignore and discard
+			case reason := <-cs.unblockCh:
+				// discard, but tell the caller, which may have been woken for another reason
+				discarded = &reason
 			default:
 				// empty - done
 				return
@@ -188,17 +189,19 @@ func (cs *clientState) releaseCapture() {
 	// drained - clear unblock state and release the capture
 	atomic.StoreInt32(&cs.unblockPending, 0)
 	cs.setLock(CS_DRAINING, CS_UNCAPTURED)
+	return
 }
 
 // Tells a blocking command (if any) to end with a timeout or error.
 // For a timeout, pass reason as an empty string and isError false.
-func (cs *clientState) unblock(reason string, isError bool) {
+func (cs *clientState) unblock(reason string, isError bool) (wasBlocked bool) {
 	us := time.Microsecond
 
 	for {
 		// N.B., checking is allowed in the midst of capture and release
 		locked := atomic.SwapInt32(&cs.blocked, CS_CHECKING)
 		if locked == CS_CAPTURED {
+			wasBlocked = true
 			// client is probably in select waiting for the unblock
 			if atomic.CompareAndSwapInt32(&cs.unblockPending, 0, 1) {
 				// only one unblock is posted per capture to prevent
